@@ -30,6 +30,7 @@ def run(ctx):
     common.r_argbind(ctx, {"add_constraints_from_two_lists_of_points", "add_constraints_from_one_list_of_points"})
     c07.r_bookkeeping(ctx)           # whether a query records a new sample depends on (evaluated here?, differentiable?) only, not on what the first sample looked like
     c07.with_system(ctx, c07.r_sample_registered)  # a sample is registered whatever the order in which samples arrive
+    c07.with_system(ctx, c07.r_addpoint)          # a sample is pruned before it is tested for stationarity and registered: a zero gradient written with explicit zero weights is a zero gradient
     c07.with_system(ctx, c07.r_stationary_list)   # conditions over list_of_stationary_points see every zero-gradient sample, however it was recorded
     ctx.floor("class families", len(ca.families), 20)
     ctx.floor("class conditions", n, 32)
